@@ -82,6 +82,24 @@ CHECKS["C08"] = dict(
     technique="TLA+ case-matrix spec + TLC complete enumeration; every case replayed with a fault-injecting backend",
 )
 
+CHECKS["C14"] = dict(
+    category="model_checking",
+    text="ChainStore.tla models the external issuance-chain store: hash-addressed rows, the LRU / noop cache with its "
+         "detached write as a separately scheduled action, legacy full-chain entries, storage faults, dropped and damaged "
+         "rows (trailing bytes, not DER, truncated, empty, content altered); TLC checks SameAsDirect, FaultIsError, "
+         "LegacyUnchanged for the noop cache and LRU capacities unbounded/1/2. Simulated behaviours are replayed on twin "
+         "real instances (direct vs external storage, real cache behind a gate that fires the detached cache.Set where the "
+         "behaviour says) fed the same submissions: every served entry is compared byte for byte through both read "
+         "endpoints, storage faults must give 5xx and never data, storage call counts are compared with the specification's "
+         "cache hits/misses; an ungated concurrent run (tiny capacity and TTL) under the race detector compares every read "
+         "with the direct mode.",
+    design="4/C14",
+    note="in-memory IssuanceChainStorage instead of MySQL/PostgreSQL; exhaustive configs bound outstanding cache writes to 2; "
+         "TTL expiry only in the concurrent run (law: output equality).",
+    technique="TLA+ spec + TLC exhaustive model checking; spec->code replay on twin instances with a gated cache as "
+              "scheduler; concurrent differential run under -race",
+)
+
 NOT_YET = {}
 
 def main():
